@@ -242,20 +242,25 @@ SnAllocN(p, num) ==                              \* Glu_alloc(LSUB) under LLOCK
             /\ lsubOff' = [lsubOff EXCEPT ![supno[jcol[p]]] = nextl]
             /\ lsubLen' = [lsubLen EXCEPT ![supno[jcol[p]]] = num]
             /\ nextl' = nextl + num
+            /\ jj' = [jj EXCEPT ![p] = jcol[p]]
             /\ pc' = [pc EXCEPT ![p] = "sfact"]
-            /\ UNCHANGED <<sch, loc, supno, nsuper, xsupEnd, xsupBeg, final, nextu, ispruned, pivcnt, zset, mast>>
-\* the columns of the relaxed supernode are factored one after the other; zc = first
-\* column with a zero pivot (0 if none)
-SnFactZ(p, zc) ==
-            /\ pc[p] = "sfact"
-            /\ (zc = 0 \/ zc \in MyCols(p))
-            /\ final' = [c \in Cols |-> IF c \in MyCols(p) THEN TRUE ELSE final[c]]
-            /\ pivcnt' = [c \in Cols |-> IF c \in MyCols(p) THEN pivcnt[c] + 1 ELSE pivcnt[c]]
-            /\ sing' = [sing EXCEPT ![p] = IF zc # 0 /\ (@ = 0 \/ zc < @) THEN zc ELSE @]
-            /\ zset' = IF zc # 0 THEN zset \cup {zc} ELSE zset
-            /\ pc' = [pc EXCEPT ![p] = "srel"]
-            /\ UNCHANGED <<sch, supno, nsuper, xsupEnd, xsupBeg, lsubOff, lsubLen, nextl, nextu, ispruned, mast,
-                           jcol, bcol, lbusy, kcol, ksup, fsupc, krep, jj, covered, reading, writing, pr>>
+            /\ UNCHANGED <<sch, supno, nsuper, xsupEnd, xsupBeg, final, nextu, ispruned, pivcnt, zset, mast,
+                           jcol, bcol, lbusy, kcol, ksup, fsupc, krep, covered, reading, writing, pr, sing>>
+\* the columns of the relaxed supernode are factored one after the other (snode_bmod + pivotL);
+\* z = TRUE iff the column has no nonzero pivot candidate
+SnPivotZ(p, z) ==
+            /\ pc[p] = "sfact" /\ jj[p] < jcol[p] + PSize[jcol[p]]
+            /\ final' = [final EXCEPT ![jj[p]] = TRUE]
+            /\ pivcnt' = [pivcnt EXCEPT ![jj[p]] = @ + 1]
+            /\ sing' = [sing EXCEPT ![p] = IF z /\ (@ = 0 \/ jj[p] < @) THEN jj[p] ELSE @]
+            /\ zset' = IF z THEN zset \cup {jj[p]} ELSE zset
+            /\ jj' = [jj EXCEPT ![p] = @ + 1]
+            /\ UNCHANGED <<sch, supno, nsuper, xsupEnd, xsupBeg, lsubOff, lsubLen, nextl, nextu, ispruned, mast, pc,
+                           jcol, bcol, lbusy, kcol, ksup, fsupc, krep, covered, reading, writing, pr>>
+\* every column of the supernode has been pivoted
+SnFact(p) == /\ pc[p] = "sfact" /\ jj[p] = jcol[p] + PSize[jcol[p]]
+             /\ pc' = [pc EXCEPT ![p] = "srel"]
+             /\ UNCHANGED <<sch, lu, loc, pivcnt, zset, mast>>
 SnRelease(p) == /\ pc[p] = "srel"
             /\ spin' = [c \in Cols |-> IF c \in MyCols(p) THEN 0 ELSE spin[c]]
             /\ writing' = [writing EXCEPT ![p] = {}]
@@ -453,7 +458,8 @@ Wrap == /\ mpc = "fixup" /\ fixq = <<>>
 -----------------------------------------------------------------------------
 Sizes == {2}     \* two subscript copies per supernode; actual sizes are irrelevant for the interleavings
 Step(p) == \/ Loop(p) \/ Exit(p) \/ Sched(p)
-           \/ SnNew(p) \/ (\E k \in Sizes : SnAllocN(p, k)) \/ (\E z \in (IF ZeroPivots /\ pc[p] = "sfact" THEN {0} \cup MyCols(p) ELSE {0}) : SnFactZ(p, z)) \/ SnRelease(p)
+           \/ SnNew(p) \/ (\E k \in Sizes : SnAllocN(p, k)) \/ (\E z \in (IF ZeroPivots THEN {FALSE, TRUE} ELSE {FALSE}) : SnPivotZ(p, z))
+           \/ SnFact(p) \/ SnRelease(p)
            \/ MarkBusy(p) \/ DfsBegin(p) \/ DfsEnd(p)
            \/ WaitCol(p) \/ Climb(p) \/ ClimbWait(p) \/ BusyUpdBegin(p) \/ BusyUpdEnd(p)
            \/ ColJoin(p) \/ ColNew(p) \/ (\E k \in Sizes : ColAllocN(p, k))
